@@ -323,3 +323,60 @@ def run_utf8(prog, res, floor=4, units=("sexp.c", "eval.c", "io.c", "port.c")):
                                 "leave a gap, so this reader decodes that width class of UTF-8 differently from the other decoders "
                                 "and from the writer" % (fn.name, n, shifts, [6 * k for k in range(n)]), unit=fn.unit.display))
     return stat
+
+
+UTF8_ROUTINES = {"sexp_utf8_encode_char", "sexp_utf8_char_byte_count", "sexp_write_utf8_char", "sexp_read_utf8_char",
+                 "sexp_push_utf8_char", "sexp_string_utf8_ref"}
+
+
+def run_utf8_boundary(prog, res, floor=3, units=("sexp.c", "eval.c", "vm.c", "io.c", "port.c")):
+    """a branch that decides between the one-byte path and the multi-byte UTF-8 routines splits the code points at
+    0x80 exactly: `c >= 0x80`, `c < 0x80`, `c > 0x7F` or `c <= 0x7F`.  `c > 0x80` sends U+0080 down the one-byte
+    path, where it is stored as the bare continuation byte 0x80 - a string no reader of UTF-8 accepts."""
+    stat = res.stat("C08.c", "branches that choose between the ASCII path and the UTF-8 routines split at 0x80 exactly", floor=floor)
+    for fn in prog.all_funcs():
+        if fn.unit.name not in units or not fn.blocks:
+            continue
+        for b in fn.blocks.values():
+            if b.cond is None or len(b.succs) != 2:
+                continue
+            for m in fn.subtree(b.cond):
+                nd = fn.nodes[m]
+                if nd["k"] != "bin" or nd["o"] not in ("<", "<=", ">", ">="):
+                    continue
+                l, r = nd["c"]
+                o = nd["o"]
+                k = fn.const_val(r)
+                if k is None:
+                    k = fn.const_val(l)
+                    o = {"<": ">", "<=": ">=", ">": "<", ">=": "<="}[o]
+                if k not in (0x7F, 0x80):
+                    continue
+                # does an arm (up to three blocks deep) call a UTF-8 routine?
+                hit = False
+                seen, frontier = set(), [s for s in b.succs if s is not None and s >= 0]
+                for _depth in range(3):
+                    nxt = []
+                    for s in frontier:
+                        if s in seen:
+                            continue
+                        seen.add(s)
+                        for e in fn.blocks[s].elems:
+                            if fn.nodes[e]["k"] == "call" and fn.nodes[e].get("o") in UTF8_ROUTINES:
+                                hit = True
+                        nxt.extend(x for x in fn.blocks[s].succs if x is not None and x >= 0)
+                    frontier = nxt
+                if not hit:
+                    continue
+                stat.sites += 1
+                stat.obligations += 1
+                good = (k == 0x80 and o in (">=", "<")) or (k == 0x7F and o in (">", "<="))
+                if good:
+                    stat.discharged += 1
+                    stat.sample({"site": fn.where(m), "function": fn.name, "test": fn.txt(m)[:40]})
+                else:
+                    res.add(Finding("C08", "C08.c.utf8-boundary", fn.name, "%s %s %d" % ("c", o, k), fn.where(m),
+                                    "%s chooses between the one-byte path and the UTF-8 routines with `%s`: the code point %d "
+                                    "takes the wrong side (U+0080 is stored as a bare continuation byte, or U+007F is treated as "
+                                    "multi-byte)" % (fn.name, fn.txt(m)[:40], 0x80 if k == 0x80 else 0x7F), unit=fn.unit.display))
+    return stat
